@@ -1,5 +1,6 @@
 from __future__ import annotations
 
+import decimal
 import math
 import re
 import typing as t
@@ -240,6 +241,19 @@ class FloatConverter(NumberConverter):
             raise ValidationError()
 
         return value_num
+
+    def to_url(self, value: t.Any) -> str:
+        value_str = super().to_url(value)
+
+        if "e" in value_str:
+            # str() writes very large and very small numbers with an
+            # exponent, which is not a URL this converter matches
+            value_str = format(decimal.Decimal(value_str), "f")
+
+            if "." not in value_str:
+                value_str += ".0"
+
+        return value_str
 
 
 class UUIDConverter(BaseConverter):
